@@ -19,9 +19,9 @@ INVS = ["ValueValid", "UniqueKeys", "EveryNodeReachable"]
 PROPS = ["DefaultNeverChanges", "ReadOnlyNeverChanges", "RejectedLeavesUnchanged", "ModelSetGetRoundTrip"]
 
 
-def files_for(kinds, maxnodes, steps, keys=("a", "b"), prios=(1, 2), level=None):
+def files_for(kinds, maxnodes, steps, keys=("a", "b"), prios=(1, 2), level=None, maxpath=2):
     return tlc.mc_files("MC_Params", "Params", {"MaxNodes": str(maxnodes), "Keys": S(list(keys)), "Kinds": S(kinds), "Prios": S(list(prios)),
-                                                 "MaxSteps": str(steps), "Bounded": S(BOUNDED)}, invariants=INVS, properties=PROPS, level=level)
+                                                 "MaxSteps": str(steps), "Bounded": S(BOUNDED), "MaxPath": str(maxpath)}, invariants=INVS, properties=PROPS, level=level)
 
 
 def concrete(kind, vclass):
@@ -36,6 +36,13 @@ def concrete(kind, vclass):
         "unit": {"v1": "m", "v2": "km", "oob": "s", "wrongtype": 5},
     }
     return table[kind][vclass]
+
+
+def oob_variants(kind):
+    import math
+    from pydsol.core.units import Length
+    return {"int": [4, -1], "float": [3.5, -0.5, math.nan, math.inf], "quantity": [Length(11, "m"), Length(-1, "m"), Length(math.nan, "m")],
+            "list": ["z", ""], "unit": ["s", ""]}.get(kind, [])
 
 
 def classify(kind, value):
@@ -105,12 +112,33 @@ def replay(ctx: Ctx, states, origin):
                     return bad(f"new|{op['kind']}|{op['dclass']}", f"constructing {op['kind']} '{op['key']}' (default {op['dclass']}) -> {res}, specification {op['res']}", k)
                 if res == "ok":
                     objs[op["id"]] = o
+                    if op["kind"] in BOUNDED and not op["ro"]:
+                        # probe: every out-of-domain value must be refused and leave the value unchanged
+                        before = o.value
+                        for v in oob_variants(op["kind"]):
+                            try:
+                                o.set_value(v)
+                                return bad(f"set_value|{op['kind']}|oob", f"set_value({v!r}) on a fresh {op['kind']} parameter was accepted (value now {o.value!r})", k)
+                            except (TypeError, ValueError):
+                                pass
+                        if o.value is not before and o.value != before:
+                            return bad(f"set_value|{op['kind']}|oob", f"a refused set_value changed the value to {o.value!r}", k)
             elif a == "SetValue":
                 o = objs[op["id"]]
                 kind = nodes[op["id"] - 1]["kind"]
                 try:
-                    o.set_value(concrete(kind, op["vclass"]) if kind != "map" else {})
-                    res = "ok"
+                    if op["vclass"] == "oob":
+                        res = "error"
+                        for v in oob_variants(kind):     # every out-of-domain value must be refused
+                            try:
+                                o.set_value(v)
+                                res = f"ok (accepted {v!r})"
+                                break
+                            except (TypeError, ValueError):
+                                pass
+                    else:
+                        o.set_value(concrete(kind, op["vclass"]) if kind != "map" else {})
+                        res = "ok"
                 except (TypeError, ValueError, NotImplementedError):
                     res = "error"
                 if res != op["res"]:
@@ -244,9 +272,21 @@ def run(ctx: Ctx):
         if len(ctx.violations) > 30:
             break
     ctx.traces += len(paths)
+    # deep trees: one key, maps nested three levels, paths with three parts
+    files, mod, cfg = files_for(["map", "int"], 4, 4, keys=("a",), prios=(1,), maxpath=3)
+    nodes, edges, inits, r = tlc.dump_graph(mod, cfg, extra_files=files, workers=8, timeout=900)
+    ctx.add_tlc("Params deep-tree graph (paths of 3 keys)", r)
+    paths, ncov = graphs.edge_cover(nodes, edges, inits)
+    for pi, p in enumerate(paths):
+        states = [nodes[inits[0]]] + [nodes[edges[k][2]] for k in p]
+        replay(ctx, states, f"deep-tree path {pi}")
+        ctx.evaluations += 1
+        if len(ctx.violations) > 30:
+            break
+    ctx.traces += len(paths)
     # simulation over all kinds
-    files, mod, cfg = files_for(ALLK, 6, 12, keys=("a", "b", "c"), prios=(1, 2, 3), level=20)
-    behs, r = tlc.simulate(mod, cfg, num=ctx.pick(600, 6000), depth=13, seed=ctx.seed + 18, extra_files=files, timeout=1800)
+    files, mod, cfg = files_for(ALLK, 7, 14, keys=("a", "b"), prios=(1, 2, 3), level=20, maxpath=3)
+    behs, r = tlc.simulate(mod, cfg, num=ctx.pick(600, 6000), depth=15, seed=ctx.seed + 18, extra_files=files, timeout=1800)
     ctx.add_tlc("Params -simulate (all kinds)", r)
     for bi, beh in enumerate(behs):
         replay(ctx, [s for _, _, s in beh], f"behaviour {bi}")
